@@ -178,5 +178,23 @@ mut("comp-uuid-header-malformed-is-nil", ["C09", "C15"], [_np("WB1"), (API, "   
     "S-CLIENTID", "header helper: a malformed client id becomes the nil id")
 mut("comp-sqlcontext-result-dropped", ["C05", "C04"], [_np("WC3"), (SQL, ".sql_context(\"Error creating/updating snapshot\")?;", ".sql_context(\"Error creating/updating snapshot\").ok();")],
     "C05.ERR", "extension trait: the snapshot UPDATE's failure is discarded")
+_CAP = "        if history_segment.len() > 16 * 1024 * 1024 {\n            anyhow::bail!(\"history segment too large\");\n        }\n"
+mut("failmode-handler-extra-400", ["C15", "C02", "C14"], [(AV, "    if body.is_empty() {", "    if parent_version_id.is_nil() && body.len() > 16 * 1024 * 1024 {\n        return Err(error::ErrorBadRequest(\"initial version too large\"));\n    }\n\n    if body.is_empty() {")],
+    "C15.REFUSE", "a further 400 refusal in the add-version handler for a reason the protocol does not know (silent in all 20 checks before round 13)")
+mut("failmode-sqlite-size-cap", ["C13", "C06", "C15", "C02"], [(SQL, "    ) -> anyhow::Result<()> {\n        self.con.execute(\n            \"INSERT INTO versions", "    ) -> anyhow::Result<()> {\n" + _CAP + "        self.con.execute(\n            \"INSERT INTO versions")],
+    "S-FAILMODES", "a size cap in the SQLite add_version (silent in all 20 checks before round 13)")
+mut("failmode-inmemory-size-cap-first", ["C13", "C06", "C15", "C02"], [(MEM, "    ) -> anyhow::Result<()> {\n        let version = Version {", "    ) -> anyhow::Result<()> {\n" + _CAP + "        let version = Version {")],
+    "S-FAILMODES", "a size cap at the top of the in-memory add_version, before any mutation (silent in all 20 checks before round 13)")
+mut("failmode-core-size-cap", ["C02", "C06", "C13", "C15"], [(SRV, "        let mut txn = self.storage.txn(client_id)?;\n        let client = txn.get_client()?.ok_or(ServerError::NoSuchClient)?;\n\n        // check if this version is acceptable",
+     "        if history_segment.len() > 16 * 1024 * 1024 {\n            return Err(ServerError::Other(anyhow::anyhow!(\"history segment too large\")));\n        }\n        let mut txn = self.storage.txn(client_id)?;\n        let client = txn.get_client()?.ok_or(ServerError::NoSuchClient)?;\n\n        // check if this version is acceptable")],
+    "S-FAILMODES", "a size cap at the top of Server::add_version (silent in all 20 checks before round 13)")
+mut("skip-sqlite-add-version-ok", ["C01", "C02", "C06"], [(SQL, "    ) -> anyhow::Result<()> {\n        self.con.execute(\n            \"INSERT INTO versions", "    ) -> anyhow::Result<()> {\n        if history_segment.len() > 16 * 1024 * 1024 {\n            return Ok(());\n        }\n        self.con.execute(\n            \"INSERT INTO versions")],
+    "S-OKAFTER", "the SQLite add_version silently drops an oversized segment and returns Ok")
+mut("skip-inmemory-add-version-ok", ["C01", "C02", "C06", "C13"], [(MEM, "    ) -> anyhow::Result<()> {\n        let version = Version {", "    ) -> anyhow::Result<()> {\n        if history_segment.len() > 16 * 1024 * 1024 {\n            return Ok(());\n        }\n        let version = Version {")],
+    "S-OKAFTER", "the in-memory add_version silently drops an oversized segment and returns Ok")
+mut("skip-sqlite-set-snapshot-ok", ["C11", "C10", "C13"], [(SQL, "    fn set_snapshot(&mut self, snapshot: Snapshot, data: Vec<u8>) -> anyhow::Result<()> {\n", "    fn set_snapshot(&mut self, snapshot: Snapshot, data: Vec<u8>) -> anyhow::Result<()> {\n        if data.len() > 64 * 1024 * 1024 {\n            return Ok(());\n        }\n")],
+    "S-OKAFTER", "the SQLite set_snapshot silently drops a large snapshot and returns Ok (silent in all 20 checks before round 13)")
+mut("skip-schema-when-file-exists", ["C04"], [(SQL, "        for q in queries {\n", "        if !o.db_file.metadata().map(|m| m.len() == 0).unwrap_or(true) {\n            return Ok(o);\n        }\n        for q in queries {\n")],
+    "C04.SCHEMA", "SqliteStorage::new skips the idempotent schema statements when the database file is not empty: a half-created schema is never completed")
 mut("comp-divisor-const-one", ["C12"], [_np("WB2"), (SRV, "const HIGH_EXTRA_DIVISOR: u8 = 2;", "const HIGH_EXTRA_DIVISOR: u8 = 1;")],
     "C12.FACTOR", "named divisor constant: high threshold at twice the target")
